@@ -45,6 +45,11 @@ def replay_case(arg):
         elif mag.endswith('small'):
             mo = mo * 1e-3
             par = [v * 1e-2 for v in par] if kind in ('G', 'C') else par
+        elif mag == 'tiny':
+            # a change of units (nmol/L -> mol/L): outputs, observations and the ABSOLUTE scales times 1e-9; relative and
+            # log scales are pure numbers
+            mo = mo * 1e-9
+            par = [v * 1e-9 * 0.3 for v in par] if kind == 'G' else ([par[0] * 1e-9 * 0.3] + par[1:] if kind == 'C' else par)
         if rec['outsign'] == 'somezero':
             mo[int(rng.integers(n))] = 0.0
         elif rec['outsign'] == 'someneg':
@@ -52,7 +57,8 @@ def replay_case(arg):
         elif rec['outsign'] == 'smallneg':
             # negative, with sigma_base + sigma_rel * output = sigma_base / 2 > 0 for the constant-and-multiplicative model
             mo[int(rng.integers(n))] = -round(0.5 * par[0] / par[1], 4) if (kind == 'C' and rec['cls'] != '-inf') else -0.2
-        obs = np.round(rng.uniform(0.5, 3.0, size=n), 3) * (1e3 if mag.endswith('large') else 1e-3 if mag.endswith('small') else 1.0)
+        obs = np.round(rng.uniform(0.5, 3.0, size=n), 3) * (1e3 if mag.endswith('large') else 1e-3 if mag.endswith('small') else
+                                                             1e-9 if mag == 'tiny' else 1.0)
         S = np.round(rng.uniform(-1, 1, size=(n, p)), 3)
         # the caller's buffers are allocated ONCE per case and refilled in place for every repetition (a preallocated
         # array in a loop): the result depends on the content handed over, not on the identity of the object
